@@ -103,6 +103,7 @@ type Sweep struct {
 
 // Pred is a named predicate or macro.
 type Pred struct {
+	Pkg    string
 	Name   string
 	Params []string
 	Body   *cexpr.Node
@@ -268,7 +269,7 @@ func Parse(text, path, pkg string) (*File, error) {
 				return nil, perr(rc, fmt.Errorf("pred needs '='"))
 			}
 			head := strings.TrimSpace(rc.text[:k])
-			p := &Pred{Src: rc.text}
+			p := &Pred{Src: rc.text, Pkg: pkg}
 			if o := strings.Index(head, "("); o >= 0 {
 				p.Name = strings.TrimSpace(head[:o])
 				ps := strings.TrimSuffix(strings.TrimSpace(head[o+1:]), ")")
